@@ -170,6 +170,14 @@ def RawData.GoRT (d : RawData) (T : Rat) : Except Err Rat :=
     | .error e => .error e
     | .ok s => .ok (h - s)
 
+/-- `set_range` on a table correlation: `ThermochemRawData` does not override `ThermochemBase.set_range` (base.py), which
+asserts the order of the two bounds and stores them — it does not look at the table or at `T_ref`, so the new range may
+exclude the reference temperature, tabulated temperatures and the old bounds.  A failed assertion leaves the object as
+it was.  (`set_range(None)` removes the range altogether; a correlation without a range has no "outside" and is not
+modelled here.) -/
+def RawData.setRange (d : RawData) (r : Range) : Except Err RawData :=
+  if r.2 < r.1 then .error .assertion else .ok { d with range := r }
+
 /-! ### `ThermochemIncomplete` / `ThermochemGroup` (evaluation part) -/
 
 /-- outcome of an evaluation: value or exception, and whether `IncompleteDataWarning` was issued -/
